@@ -278,7 +278,7 @@ def run(tier):
         for i in range(nforms):
             jobs.append((cli, k, base + k, mode, (None, None, i))); k += 1
         jobs.append((cli, k, base + k, mode, "no-events")); k += 1
-    n = 300 if tier == "quick" else 5000
+    n = 300 if tier == "quick" else 30000
     for i in range(n):
         jobs.append((cli, k, base + k, "none" if i % 2 == 0 else "zod", None)); k += 1
     res = common.pmap(run_case, jobs, chunksize=8)
